@@ -5,14 +5,16 @@ META = dict(
     engine="Producer",
     technique='spec/Producer.tla model-checked by TLC (OrderOK over all interleavings of fresh, bounced and fin-marker messages); behaviours and fault families replayed on the real producer; TLC validates log_order / success_offset_order on the recorded traces (spec/ProducerObsTrace.tla)',
     text='Payloads are numbered in submission order by the single submitting goroutine; the simulated brokers log every append with the ids it carries. TLC checks on every recorded execution that the first copies of any two messages of a partition appear in submission order and that success offsets are monotone in submission order - across retries at depth 1..3, leader moves, connection drops before/after the append, fresh input injected while a request is held or while the fin marker is parked at a hook gate, Retry.Max 0/1/3, several flush settings, one or two partitions per broker. The model-level invariant OrderOK is checked exhaustively on the pipeline model.',
-    note='bounded model; real executions are a finite steered sample; non-idempotent duplicates are legal (clauses speak about first copies and about messages both reported successful); simulated cluster trusted',
+    note='conducted replay: TLC behaviours in hook normal form (every internal action recorded) are followed step by step by the real goroutines, parked at the hook points by a conductor that fails open (followed/diverged counts in the evidence); bounded model; real executions are a finite steered sample; non-idempotent duplicates are legal (clauses speak about first copies and about messages both reported successful); simulated cluster trusted',
     design_ref="6/C02",
 )
 
 
 def run(ctx):
     n = 80 if ctx.tier == "quick" else 3000
-    fams = [("gen", "gen.p1", n), ("gen", "gen.p2", n), ("gen", "gen.p2b1", n), ("gen", "gen.idem1", n),
+    nc = 40 if ctx.tier == "quick" else 400     # conducted replay: behaviours per model instance
+    fams = [("conduct", "conduct.p1", nc), ("conduct", "conduct.p2b1", nc), ("conduct", "conduct.p2", nc),
+            ("gen", "gen.p1", n), ("gen", "gen.p2", n), ("gen", "gen.p2b1", n), ("gen", "gen.idem1", n),
             lambda: pc.family_faults(False, ctx.seed), lambda: pc.family_faults(True, ctx.seed),
             lambda: pc.family_gates(False), lambda: pc.family_gates(True), lambda: pc.family_gates_metafail(False), pc.family_sibling_syn, pc.family_level_jump, lambda: pc.family_resubmit(False), pc.family_retry0, lambda: pc.family_overflow(False), lambda: pc.family_overflow(True)]
     mc = ["MCProducer.small.cfg"] if ctx.tier == "quick" else ["MCProducer.quick.cfg", "MCProducer.p2.cfg"]
